@@ -347,15 +347,15 @@ def enum_perms(tier):
 
 CLAUSES = [
     Clause("numbering", check_perm, gen=lambda t: coord_sets(),
-           budget={"quick": (4, 600), "thorough": (16, 30000)},
+           budget={"quick": (4, 600), "thorough": (16, 8000)},
            doc="trap ids/eq/hash independent of input order; canonical (x,y,z) order after rounding"),
     Clause("numbering_allperms", check_perm, enum=enum_perms,
            budget={"quick": (2, 0), "thorough": (4, 0)}, exhaustive=True,
            doc="all permutations of fixed 2..6-point sets"),
     Clause("define_register", check_register, gen=lambda t: register_cases(),
-           budget={"quick": (4, 500), "thorough": (16, 20000)}),
+           budget={"quick": (4, 500), "thorough": (16, 6000)}),
     Clause("mappable", check_mappable, gen=lambda t: mappable_cases(),
-           budget={"quick": (3, 400), "thorough": (16, 15000)}),
+           budget={"quick": (3, 400), "thorough": (16, 5000)}),
     Clause("detuning_map", check_detmap, gen=lambda t: detmap_cases(),
-           budget={"quick": (3, 400), "thorough": (16, 15000)}),
+           budget={"quick": (3, 400), "thorough": (16, 5000)}),
 ]
